@@ -22,7 +22,9 @@ func (ex *Exec) execCall(fr *Frame, st *State, cc *ssa.CallCommon, instr ssa.Ins
 			args = append(args, ex.operand(fr, st, a))
 		}
 		ex.siteHooks(fr, st, instr, "builtin."+bi.Name(), args, nil, cc, true)
-		return ex.builtin(fr, st, bi, cc, args, instr, pos)
+		res := ex.builtin(fr, st, bi, cc, args, instr, pos)
+		ex.siteHooksAfter(fr, st, instr, "builtin."+bi.Name(), args, res)
+		return res
 	}
 	fnv := ex.operand(fr, st, cc.Value)
 	var args []Value
